@@ -31,7 +31,7 @@ from core import cz, cq, clist, ctuple, copt
 
 PAIRS = [(480, 500000), (96, 600000), (1000, 333333), (1, 10 ** 6), (384, 250000), (960, 1000000)]
 THRS = [0, 1, 63, 64, 126, 127]
-EXPECT_MIN = 56
+EXPECT_MIN = 66
 F32_TOL = F(1, 2 ** 20)  # relative tolerance for the float32 columns of note_array
 CPU_BUDGET = 60.0  # seconds of CPU time (not wall-clock) one implementation call may use
 
@@ -1969,6 +1969,7 @@ CASE_TYPES = {
     "check_sanitize": "nat * list ptracks * list (list Z * list Z * list Z)",
     "check_sanitize_exact": "nat * list ptracks * list (list Z * list Z * list Z)",
     "check_perf_history": "list ptracks * list pstep * list (list Z * list Z * list Z)",
+    "check_strike": "Z * list note * list ctrl * list Q",
 }
 
 
@@ -2019,6 +2020,203 @@ def empty_part_checks(ctx):
         ctx.count("empty_part:built_assigned_tabulated_rebuilt", 3)
 
 
+# ----------------------------------------------------------------------------
+# round j: the re-strike stream -- few pitches, many notes per pitch, chains of strikes exactly at releases, zero-length
+# notes, strikes while the key is held, notes the pedal does not hold next to held ones; compared with the array-level
+# model Model/C14_Strike.v (np.unique, gather, searchsorted + np.maximum(arange), np.minimum, in-place scatter)
+
+
+def gen_strike_case(rng):
+    sc = rng.choice([4, 4, 16, 1])
+    npitch = rng.choice([1, 1, 2, 2, 3, 4])
+    pitches = rng.sample(range(0, 128), npitch)
+    n = rng.choice([2, 3, 4, 5, 6, 8, 10, 12, 14])
+    span = rng.choice([6, 10, 16, 24])
+    notes = []
+    for _ in range(n):
+        p = rng.choice(pitches)
+        same = [m for m in notes if m["midi_pitch"] == p]
+        r = rng.random()
+        if same and r < 0.35:
+            on = rng.choice(same)["off"]  # struck again exactly at a release
+        elif same and r < 0.5:
+            m = rng.choice(same)
+            on = rng.randint(m["on"], m["off"])  # struck while the key is held (or at its ends)
+        elif same and r < 0.6:
+            on = rng.choice(same)["off"] + rng.choice([1, 1, 2])
+        else:
+            on = rng.randint(0, span)
+        dur = rng.choice([0, 0, 1, 1, 2, 3, rng.randint(0, 8)])
+        notes.append(dict(midi_pitch=p, on=on, off=on + dur, velocity=rng.randint(1, 127), channel=rng.choice([0, 0, 1, 9]), track=0))
+    # a zero-length note sharing its onset with a note of its pitch leaves numpy's order of equal sort keys open: lengthen it
+    for a in notes:
+        if a["on"] == a["off"] and any(b is not a and b["midi_pitch"] == a["midi_pitch"] and b["on"] == a["on"] for b in notes):
+            if rng.random() < 0.5:
+                a["off"] += rng.choice([1, 1, 2])
+            else:
+                a["on"] = a["off"] = max(x["off"] for x in notes) + rng.choice([0, 1, 3])
+                while any(b is not a and b["midi_pitch"] == a["midi_pitch"] and b["on"] == a["on"] for b in notes):
+                    a["on"] = a["off"] = a["on"] + 1
+    o = rng.random()
+    if o < 0.25:
+        notes.sort(key=lambda x: x["on"])
+    elif o < 0.4:
+        notes.sort(key=lambda x: -x["on"])
+    else:
+        rng.shuffle(notes)
+    thr = rng.choice(THRS[:5]) if rng.random() < 0.7 else rng.randint(0, 126)
+    lo, hi = min(x["on"] for x in notes), max(x["off"] for x in notes)
+    ctrls = []
+    if rng.random() < 0.55:
+        # one long hold (down before / inside, up inside / after), possibly a second one
+        t0 = rng.choice([lo - 1, lo, lo + 1, rng.randint(lo, hi)])
+        t1 = max(t0 + 1, rng.choice([hi + 2, hi, rng.randint(lo, hi + 1)]))
+        ctrls += [dict(number=64, t=t0, value=rng.choice([127, thr + 1, 100]), track=0, channel=0),
+                  dict(number=64, t=t1, value=rng.choice([0, thr, 10 if thr >= 10 else 0]), track=0, channel=0)]
+        used = {t0, t1}
+        ctrls += gen_ctrls(rng, notes, thr, rng.choice([0, 0, 1, 2, 4]), ped_prob=0.7, used=used)
+        rng.shuffle(ctrls)
+    else:
+        ctrls = gen_ctrls(rng, notes, thr, rng.choice([1, 2, 3, 4, 6, 9]), ped_prob=0.85)
+    return dict(notes=notes, ctrls=ctrls, thr=thr, thrs=[], ppq=480, mpq=500000, scale=sc)
+
+
+def run_strike(case):
+    """-> dict(part=[Fraction]|None, direct=[Fraction]|None, err=str|None): the sounding ends of the part built from the notes and
+    of adjust_offsets_w_sustain called on plain dicts"""
+    import partitura.performance as P
+
+    out = dict(part=None, direct=None, err=None)
+    try:
+        out["part"] = so_column(build_part(case))
+        ds = [note_dict(x, k, case["scale"]) for k, x in enumerate(case["notes"])]
+        P.adjust_offsets_w_sustain(ds, [ctrl_dict(c, case["scale"]) for c in case["ctrls"]], case["thr"])
+        out["direct"] = [F(float(d["sound_off"])) for d in ds]
+    except Exception as e:
+        out["err"] = "%s: %s" % (type(e).__name__, e)
+    return out
+
+
+def oracle_strike(case, out):
+    if out["err"] or out["part"] is None or out["direct"] is None:
+        return ["building the part / adjust_offsets_w_sustain failed for notes with 0 <= onset <= release: %s" % out["err"]]
+    bad = []
+    sc, ns, thr = case["scale"], case["notes"], case["thr"]
+    if len(out["part"]) != len(ns) or len(out["direct"]) != len(ns):
+        return ["sound_off column has %d / %d entries for %d notes" % (len(out["part"]), len(out["direct"]), len(ns))]
+    if out["part"] != out["direct"]:
+        bad.append("adjust_offsets_w_sustain on dicts gives %s, the part has %s" % ([float(x) for x in out["direct"]], [float(x) for x in out["part"]]))
+    for i, so in enumerate(out["part"]):
+        off = F(ns[i]["off"], sc)
+        exp, stated = spec_end(case, thr, i)
+        if so < off:
+            bad.append("threshold %d note %d: sound_off %s < note_off %s" % (thr, i, float(so), float(off)))
+        elif stated and so != exp:
+            bad.append("threshold %d note %d (pitch %d, on %s, off %s): sound_off %s, the pedal dictates %s"
+                       % (thr, i, ns[i]["midi_pitch"], ns[i]["on"] / sc, float(off), float(so), float(exp)))
+    return bad
+
+
+def judge_strike(case):
+    out, tmo = guarded(run_strike, case)
+    if tmo:
+        out = dict(part=None, direct=None, err=tmo)
+    return oracle_strike(case, out), out
+
+
+def term_strike(case, out):
+    sc = case["scale"]
+    return ctuple([cz(case["thr"]), clist([c_note(x, sc) for x in case["notes"]]), clist([c_ctrl(c, sc) for c in case["ctrls"]]), c_qlist(out["part"])])
+
+
+def strike_features(case):
+    """what the array-level algorithm meets in this case (for the evidence)"""
+    f = set()
+    ns, thr = case["notes"], case["thr"]
+    groups = {}
+    for k, x in enumerate(ns):
+        groups.setdefault(x["midi_pitch"], []).append((k, x))
+    f.add("passes(np.unique):%s" % ("1" if len(groups) == 1 else "2" if len(groups) == 2 else "3+"))
+    big = max(len(g) for g in groups.values())
+    f.add("largest_group:%s" % ("1" if big == 1 else "2-3" if big <= 3 else "4-7" if big <= 7 else "8+"))
+    if len(groups) > 1 and any(abs(a - b) == 1 and ns[a]["midi_pitch"] != ns[b]["midi_pitch"] for a in range(len(ns)) for b in range(len(ns))):
+        f.add("groups_interleaved_in_the_array")
+    for g in groups.values():
+        idx = [k for k, _ in sorted(g, key=lambda e: e[1]["on"])]
+        if idx != sorted(idx):
+            f.add("sorted_indices_not_ascending(gather/scatter permute)")
+    ped = [(c["t"], c["value"]) for c in case["ctrls"] if c["number"] == 64]
+    for i, x in enumerate(ns):
+        g = sorted([e for e in groups[x["midi_pitch"]]], key=lambda e: e[1]["on"])
+        ons = [e[1]["on"] for e in g]
+        pos = [k for k, _ in g].index(i)
+        ss = sum(1 for o in ons if o < x["off"])
+        if ss <= pos:
+            f.add("np.maximum_decides(searchsorted <= own position)")
+        if ss > pos + 1:
+            f.add("searchsorted_skips_strikes_while_held")
+        if max(ss, pos + 1) >= len(g):
+            f.add("has_next_false")
+        elif ons[max(ss, pos + 1)] == x["off"]:
+            f.add("next_strike_exactly_at_release")
+        if x["on"] == x["off"]:
+            f.add("zero_length_note")
+        before = [(t, k, v) for k, (t, v) in enumerate(ped) if t < x["off"]]
+        down = bool(before) and max(before, key=lambda e: (e[0], e[1]))[2] > thr
+        if not down and any(b["midi_pitch"] == x["midi_pitch"] and b is not x for b in ns):
+            f.add("note_not_held_by_the_pedal_in_a_group")
+        if not down and max(ss, pos + 1) < len(g):
+            f.add("unheld_note_has_a_next_strike(np.minimum keeps the release)")
+    for why_ in end_reasons(case, thr):
+        f.add("end_decided_by:" + why_)
+    return f
+
+
+def strike_stream(ctx, ok):
+    rng = ctx.rng
+    n = 400 if ctx.tier == "quick" else 8000
+    terms, kept = [], []
+    n_viol = 0
+    for _ in range(n):
+        case = gen_strike_case(rng)
+        if has_order_tie(case):
+            ctx.count("strike:order_tie(skipped)")
+            continue
+        bad, out = judge_strike(case)
+        ctx.evaluations += 2
+        ctx.count("strike:cases")
+        if bad:
+            if n_viol < 3:
+                def still(d):
+                    if not d["notes"] or has_order_tie(d):
+                        return False
+                    b, _ = judge_strike(d)
+                    return bool(b) and b[0][:25] == bad[0][:25]
+                small = shrink(case, still, keys=("ctrls", "notes"))
+                b2, _ = judge_strike(small)
+                ctx.violation("C14 fails on the implementation (re-strike stream): " + "; ".join((b2 or bad)[:3]),
+                              {"kind": "strike", "case": small, "failures": (b2 or bad)[:5]})
+            n_viol += 1
+            continue
+        sc = case["scale"]
+        if any(so != F(x["off"], sc) for so, x in zip(out["part"], case["notes"])):
+            ctx.nontrivial("strike:" + json.dumps(case, sort_keys=True))
+        for ft in strike_features(case):
+            ctx.count("strike:" + ft)
+        terms.append(term_strike(case, out))
+        kept.append((case, out))
+    if ok and terms:
+        imports_k = "From PV Require Import Lib.Base Model.C14 Model.C14_Strike."
+        failing = coq_failing(ctx, "strike", imports_k, terms, "check_strike", shard=250)
+        ctx.obligation("correspondence: Model.C14_Strike.sound_offs_code (adjust_offsets_w_sustain on arrays and indices: np.unique over the pitches, gathers, "
+                       "np.maximum(searchsorted, arange), has_next / np.minimum, in-place scatter; the model of code_level_refines_model / restrike_loop_pointwise) = sound_off "
+                       "column of the part and of adjust_offsets_w_sustain on plain dicts, %d cases of the re-strike stream" % len(terms), not failing, failing[:5])
+        for i in failing[:3]:
+            case, out = kept[i]
+            ctx.violation("array-level model and implementation disagree on the sound_off column (the round-j theorems of Props/C14.v no longer describe this code)",
+                          {"kind": "strike-model", "case": case, "impl_sound_off": [float(x) for x in out["part"]]})
+
+
 def judge(case):
     tie = has_order_tie(case)
     res, tmo = guarded(run_impl, case)
@@ -2053,6 +2251,9 @@ def run(ctx):
                 "observation is the second of two calls with the first result overwritten; every third main case the previous one is run again, every fifth is followed by a variant with one "
                 "pedal value across the threshold; from_note_array also on the array in 4 other accepted forms; 150 / 3000 Performance histories (part replaced / appended / deleted, note added, "
                 "track changed in place, threshold assigned, then sanitize_track_numbers() again; num_tracks and note_array() judged against the current parts). "
+                "Round j: a re-strike stream of 400 / 8000 cases generated last (1-4 pitches, 2-14 notes, 35% of the notes struck exactly at a release of their pitch, 15% while the key is held, "
+                "durations weighted to 0 / 1, shuffled / sorted / reversed, 55% with one long pedal hold, thresholds at the boundary, no open order ties), the part and adjust_offsets_w_sustain on plain "
+                "dicts, compared with the array-level model Model/C14_Strike.v; features counted under strike:*. "
                 "Non-trivial = a case in which at least one note's sounding end differs from its release under at least one of the thresholds "
                 "(pedal extension, possibly clipped by a re-strike), a history with such a state or with a carried sound_off different from the release, "
                 "a performance with more than one (part, track) pair; counted distinct by the full case.")
@@ -2530,6 +2731,7 @@ def run(ctx):
         kfail = coq_failing(ctx, "sanitize_keyless", imports_t, snk_terms, "check_sanitize", shard=400) if snk_terms else []
         ctx.obligation("correspondence (outside the statement: events without a track key are grouped with track -1): Model.C14_Trk.sanitize = "
                        "Performance.sanitize_track_numbers, %d performances" % len(snk_terms), not kfail, kfail[:5])
+    strike_stream(ctx, ok)
     if not ok and not ctx.violations:
         ctx.violation("proof obligations of Props/C14.v no longer check: " + why, {"theorem_or_build": why}, no_input=True)
 
@@ -2572,6 +2774,13 @@ def replay(obj):
         print("specification (pedal dictates):")
         for t in [case["thr"]] + case["thrs"]:
             print("  threshold %d:" % t, [float(spec_sound_off(case, t, i)) for i in range(len(case["notes"]))])
+        print("oracle:", bad or "holds")
+    elif kind in ("strike", "strike-model"):
+        case = r["case"]
+        bad, out = judge_strike(case)
+        print("implementation: sound_off of the part:", None if out["part"] is None else [float(x) for x in out["part"]], "error:", out["err"])
+        print("adjust_offsets_w_sustain on plain dicts:", None if out["direct"] is None else [float(x) for x in out["direct"]])
+        print("specification (pedal dictates):", [float(spec_sound_off(case, case["thr"], i)) for i in range(len(case["notes"]))])
         print("oracle:", bad or "holds")
     elif kind == "pedal-pair":
         a = run_impl(r["first"])
